@@ -79,9 +79,11 @@ pub fn run_plan(run: &mut Run, plan: &Plan, mon: &dyn Monitor, cand: &dyn CandMo
         let starts: Vec<(u32, u32)> = (0..960u32).step_by(step).map(|n| (n, (n * 7 + 13) % 960)).collect();
         let mut roots = walk_roots(&starts, *plies, 5, *null_every, *root_every, &run.sink);
         roots.extend(walk_roots(&starts.iter().map(|&(w, _)| (w, w)).collect::<Vec<_>>(), *plies, 11, *null_every, *root_every, &run.sink));
+        // aggressive lines (checks first, then captures): many in-check positions and mates with many men
+        roots.extend(walk_roots_mode(&starts.iter().map(|&(w, b)| (b, w)).collect::<Vec<_>>(), *plies * 2, 3, 0, *root_every, true, &run.sink));
         let t = bfs(&roots, bd, mon, &run.sink);
-        run.add("R-WALK", bj(bd, json!({"roots": roots.len(), "starts": starts.len() * 2, "plies_per_line": plies, "root_every_plies": root_every, "null_move_every_plies": null_every,
-            "schedule": "move index (mult*ply + w + 3b) mod #legal in the reference model's sorted list, mult 5 on double-Chess960 starts (n, 7n+13 mod 960) and mult 11 on Chess960 starts (n, n)", "mode": "explicit-state BFS from every root"})), true, t0, t);
+        run.add("R-WALK", bj(bd, json!({"roots": roots.len(), "starts": starts.len() * 3, "plies_per_line": plies, "root_every_plies": root_every, "null_move_every_plies": null_every,
+            "schedule": "move index (mult*ply + w + 3b) mod #legal in the reference model's sorted list, mult 5 on double-Chess960 starts (n, 7n+13 mod 960) and mult 11 on Chess960 starts (n, n); plus 'aggressive' lines of twice the length (mult 3, no null moves) in which the mover picks among its checking moves if any, else among its captures if any", "mode": "explicit-state BFS from every root"})), true, t0, t);
     }
     if let Some(bd) = &plan.r960 {
         let t0 = Instant::now();
